@@ -254,11 +254,12 @@ func c10genPath(r *rand.Rand, root interface{}, k string) []string {
 
 func (c10) Case(c *core.Ctx) {
 	r := c.R
-	g := jv.GenOpt{Keys: c10keys, MaxFan: 3, WideProb: 60, ListInList: r.Intn(3) == 0, EmptyConts: true, Nulls: true, Scalars: c08scalar}.Fresh()
+	keys := keyAlphabet(r, c10keys)
+	g := jv.GenOpt{Keys: keys, MaxFan: 3, WideProb: 60, ListInList: r.Intn(3) == 0, EmptyConts: true, Nulls: true, Scalars: c08scalar}.Fresh()
 	root := jv.M{"doc": g.Value(r, 1+r.Intn(5), false)}
 	before := jv.Copy(root).(jv.M)
 	beforeFp := jv.Fp(before)
-	k := c10keys[r.Intn(len(c10keys))]
+	k := keys[r.Intn(len(keys))]
 	path := c10genPath(r, root, k)
 	if r.Intn(5) != 0 {
 		// make the two addressing forms hit often: k = the last path key, or a key of a node the path yields
@@ -283,6 +284,9 @@ func (c10) Case(c *core.Ctx) {
 	var newVal interface{}
 	sep := ":"
 	form := r.Intn(6)
+	if form >= 4 && (strings.TrimSpace(k) != k || k == "") {
+		form = 0 // the string form of the new value does not define blanks around the key: use the map form
+	}
 	switch form {
 	case 0, 1:
 		sent = fmt.Sprintf("NEW#%d", c.Index)
